@@ -17,15 +17,16 @@ import (
 )
 
 type parseCase struct {
-	label    string
-	clause   *ast.CaseClause
-	typeName string            // constructed type
-	bind     map[string]*Term  // field name -> operand leaf
-	nargs    int               // validateArgs expected count (-1: none)
-	maxElem  int               // largest elements[k] index used
-	problems []string          // error-discipline / shape problems
-	elemUses int               // number of elements[k] uses
-	libCalls int               // operand parser calls whose error is checked
+	label     string
+	clause    *ast.CaseClause
+	typeName  string           // constructed type
+	bind      map[string]*Term // field name -> operand leaf
+	nargs     int              // validateArgs expected count (-1: none)
+	maxElem   int              // largest elements[k] index used
+	problems  []string         // error-discipline / shape problems
+	elemUses  int              // number of elements[k] uses
+	libCalls  int              // operand parser calls whose error is checked
+	untrimmed int              // operands used without strings.TrimSpace
 }
 
 type opcodeInfo struct {
@@ -218,10 +219,15 @@ func (a *iscAnalysis) analyseParser() {
 	}
 }
 
+var untrimmedOperands int
+
 func elemIndex(t *Term) (int, bool) {
-	// lib:strings.TrimSpace(elem(free:elements, k)) or elem(free:elements,k)
+	// lib:strings.TrimSpace(elem(free:elements, k)); an untrimmed operand is
+	// recognised too but counted (R11.7)
 	if t.Op == "lib" && t.S == "strings.TrimSpace" && len(t.Args) == 1 {
 		t = t.Args[0]
+	} else if t.Op == "elem" {
+		untrimmedOperands++
 	}
 	if t.Op == "elem" && t.Args[0].Op == "free" {
 		if v, _, ok := t.Args[1].constInt(); ok {
@@ -282,6 +288,8 @@ func treePaths(t *Tree, pre []condLit, f func(conds []condLit, l *Tree)) {
 
 func (a *iscAnalysis) interpretCase(cc *ast.CaseClause, label string, pkg *packages.Package) *parseCase {
 	pc := &parseCase{label: label, clause: cc, bind: map[string]*Term{}, nargs: -1, maxElem: -1}
+	untrimmedOperands = 0
+	defer func() { pc.untrimmed = untrimmedOperands }()
 	in := newInterp(a.w)
 	parserModels(in)
 	fr := &frame{pkg: pkg, info: pkg.TypesInfo, name: "Parse"}
